@@ -27,9 +27,24 @@ def walk_sends(sc, obs):
 
 
 # ------------------------------------------------------------------ C01
-K_C01 = dict(wrapped_coros=0.5, falsy_model=0.08, stop_iter=0.25, any_group=0.2, callable_refs=0.15, state_decor=0.2, decor=0.5, multi_cand=0.75, guards=0.7, guard_max=3, validators=0.3, raises=0.08, sends=0.04,
+K_C01 = dict(any_shared_event=0.5, exc_classes=0.2, wrapped_coros=0.5, falsy_model=0.08, stop_iter=0.25, any_group=0.2, callable_refs=0.15, state_decor=0.2, decor=0.5, multi_cand=0.75, guards=0.7, guard_max=3, validators=0.3, raises=0.08, sends=0.04,
              unknown_ev=0.15, allow=0.4, rtc_false=0.2, p_async=0.3, cbs=0.15, extra_trans=(1, 8),
              ops=(3, 16), p_write=0.05)
+
+
+def post_C01(sc, rng):
+    """sometimes one event is declared with an explicit Event(...) object and a guard / callback is attached to
+    all its transitions through that object (`@go.unless def f`)"""
+    if sc.get("any_group") or sc.get("async") or rng.random() >= 0.2:
+        return sc
+    from . import c15
+    for t in sc["trans"]:
+        t["ev"] = sorted(t["ev"])
+    c15.inject_decor_evobj(sc, rng)
+    if sc.get("decor_evobj"):
+        sc["evstyle"], sc["mixed"] = "event_ctor", None
+        sc["decor"] = {"cbs": [], "event": None, "evobj": sc["decor_evobj"]}
+    return sc
 
 
 def nontrivial_C01(sc, obs):
@@ -45,7 +60,7 @@ def nontrivial_C01(sc, obs):
 
 
 # ------------------------------------------------------------------ C02
-K_C02 = dict(wrapped_coros=0.4, falsy_model=0.08, any_group=0.15, callable_refs=0.2, state_decor=0.3, decor=0.6, yields=0.3, cbs=0.6, cb_max=3, conv=0.35, listeners=(0, 3), multi_prov=0.3, self_loop=0.3, internal=0.5,
+K_C02 = dict(eqgroups=0.3, alias_inherit=0.4, inst_hooks=0.15, wrapped_coros=0.4, falsy_model=0.08, any_group=0.15, callable_refs=0.2, state_decor=0.3, decor=0.6, yields=0.3, cbs=0.6, cb_max=3, conv=0.35, listeners=(0, 3), multi_prov=0.3, self_loop=0.3, internal=0.5,
              multi_event=0.5, p_async=0.3, sends=0.03, guards=0.4, validators=0.3, share_groups=0.3,
              ops=(2, 10))
 
@@ -99,7 +114,7 @@ def nontrivial_C02(sc, obs):
 
 
 # ------------------------------------------------------------------ C03
-K_C03 = dict(odd_values=0.15, p_clone=0.1, hosted=0.15, sends=0.4, send_budget=12, rtc_false=0.3, cbs=0.6, conv=0.2, p_async=0.25, guards=0.2,
+K_C03 = dict(exc_classes=0.2, odd_values=0.15, p_clone=0.1, hosted=0.15, sends=0.4, send_budget=12, rtc_false=0.3, cbs=0.6, conv=0.2, p_async=0.25, guards=0.2,
              ops=(1, 6), multi_prov=0.1, scripts=(1, 4))
 
 
@@ -119,7 +134,12 @@ def extra_C03(rng, tier):
     out = [chain_scenario(60, True), chain_scenario(25, False), chain_scenario(8, True, fan=2),
            chain_scenario(40, True, group="before"), chain_scenario(20, False, group="on")]
     out.append(chain_scenario(300 if tier == "quick" else 1500, True))
-    return out, "self-triggering chains (length 8..%d, rtc on/off, fan-out 1..2)" % (300 if tier == "quick" else 1500)
+    # one callback sending far more than a thousand events: all of them wait their turn, none is dropped
+    wide = chain_scenario(1, True, fan=1100 if tier == "quick" else 2600)
+    wide["ops"] = [["construct"], ["send", 0, 1]]
+    out.append(wide)
+    return out, ("self-triggering chains (length 8..%d, rtc on/off, fan-out 1..2) and one callback sending %d events"
+                 % (300 if tier == "quick" else 1500, 1100 if tier == "quick" else 2600))
 
 
 def nontrivial_C03(sc, obs):
@@ -137,7 +157,7 @@ def nontrivial_C03(sc, obs):
 
 
 # ------------------------------------------------------------------ C04
-K_C04 = dict(user_tna=0.35, base_exc=0.3, stop_iter=0.35, hosted=0.1, sends=0.3, send_budget=8, cbs=0.5, conv=0.2, validators=0.3, guards=0.4, rtc_false=0.25,
+K_C04 = dict(exc_classes=0.45, attr_guards=0.2, prop_guards=0.8, user_tna=0.35, base_exc=0.3, stop_iter=0.35, hosted=0.1, sends=0.3, send_budget=8, cbs=0.5, conv=0.2, validators=0.3, guards=0.4, rtc_false=0.25,
              p_async=0.3, ops=(2, 5), raises=0.0, guard_raise=0.0, multi_prov=0.15)
 
 
@@ -184,7 +204,7 @@ def nontrivial_C04(sc, obs):
 
 
 # ------------------------------------------------------------------ C11
-K_C11 = dict(recording_model=0.3, falsy_model=0.12, hosted=0.1, p_clone=0.12, resume=0.45, start=0.3, p_activate=0.2, p_construct=0.2, p_async=0.35, sends=0.15, cbs=0.5,
+K_C11 = dict(id_values=0.4, recording_model=0.3, falsy_model=0.12, hosted=0.1, p_clone=0.12, resume=0.45, start=0.3, p_activate=0.2, p_construct=0.2, p_async=0.35, sends=0.15, cbs=0.5,
              conv=0.3, p_values=0.3, ops=(1, 8), rtc_false=0.2, decoys=0.35)
 
 
@@ -197,7 +217,7 @@ def nontrivial_C11(sc, obs):
 
 
 # ------------------------------------------------------------------ C14
-K_C14 = dict(odd_values=0.15, p_clone=0.06, wrapped_coros=0.4, any_group=0.2, callable_refs=0.2, state_decor=0.2, decor=0.6, cbs=0.8, cb_max=3, conv=0.35, ret_none=0.25, self_loop=0.3, internal=0.5, multi_event=0.5,
+K_C14 = dict(eqgroups=0.5, inst_hooks=0.1, odd_values=0.15, p_clone=0.06, wrapped_coros=0.4, any_group=0.2, callable_refs=0.2, state_decor=0.2, decor=0.6, cbs=0.8, cb_max=3, conv=0.35, ret_none=0.25, self_loop=0.3, internal=0.5, multi_event=0.5,
              p_async=0.3, sends=0.05, guards=0.3, listeners=(0, 2), multi_prov=0.3, allow=0.4, share_groups=0.3)
 
 
@@ -215,11 +235,13 @@ def nontrivial_C14(sc, obs):
 
 
 SPECS = {
-    "C01": dict(knobs=K_C01, nontrivial=nontrivial_C01, n=(2200, 40000)),
+    "C01": dict(knobs=K_C01, nontrivial=nontrivial_C01, n=(2200, 40000), post=post_C01),
     "C02": dict(knobs=K_C02, nontrivial=nontrivial_C02, n=(1800, 30000), late=0.3, overlap=True, extra=extra_C02,
                 probes=[{"probe": "same_class_listener", "with_listener": True},
                         {"probe": "same_class_listener", "with_listener": False}]),
-    "C03": dict(knobs=K_C03, nontrivial=nontrivial_C03, n=(1800, 20000), extra=extra_C03),
+    "C03": dict(knobs=K_C03, nontrivial=nontrivial_C03, n=(1800, 20000), extra=extra_C03,
+                probes=[{"probe": "add_listener_in_callback", "attach": True},
+                        {"probe": "add_listener_in_callback", "attach": False}]),
     "C04": dict(knobs=K_C04, nontrivial=nontrivial_C04, n=(260, 5000), faults=True),
     "C11": dict(knobs=K_C11, nontrivial=nontrivial_C11, n=(2000, 30000), probes=[{"probe": "threads_overlap"}]),
     "C14": dict(knobs=K_C14, nontrivial=nontrivial_C14, n=(2000, 30000),
@@ -325,7 +347,7 @@ def probe_threads_overlap(sc):
     class A(StateMachine):
         s = State(initial=True)
         t = State()
-        go = s.to(t)
+        go = s.to(t) | t.to(s)
 
         async def on_enter_s(self):
             in_a.set()
@@ -338,7 +360,7 @@ def probe_threads_overlap(sc):
     class B(StateMachine):
         s = State(initial=True)
         t = State()
-        go = s.to(t)
+        go = s.to(t) | t.to(s)
 
         async def on_enter_s(self):
             entered.append("B")
@@ -381,7 +403,57 @@ def probe_threads_overlap(sc):
     return {"probe": sc["probe"], "bad": bad}
 
 
-PROBES = {"same_class_listener": probe_same_class_listener, "event_name_callback": probe_event_name_callback,
+def probe_add_listener_in_callback(sc):
+    """C03: a callback attaches a listener to its own machine (add_listener may be called at any time) and then
+    sends an event: that send is queued like any other nested send - it returns None, the running transition
+    finishes first, then the queued event is processed"""
+    import warnings
+    from statemachine import State, StateMachine
+    order, seen = [], []
+
+    class Obs:
+        def after_transition(self, event):
+            seen.append(str(event))
+
+    class M(StateMachine):
+        a = State(initial=True)
+        b = State()
+        c = State(final=True)
+        go = a.to(b)
+        nxt = b.to(c)
+
+        def on_go(self):
+            if sc["attach"]:
+                self.add_listener(Obs())
+            r = self.send("nxt")
+            order.append(("nested", r, self.current_state.id))
+            return "go-result"
+
+        def on_enter_c(self):
+            order.append("enter_c")
+
+        def after_go(self):
+            order.append("after_go")
+    bad = []
+    with warnings.catch_warnings():
+        warnings.simplefilter("ignore")
+        sm = M()
+        try:
+            r = sm.send("go")
+        except Exception as e:  # noqa: BLE001
+            r = repr(e)
+    if r != "go-result":
+        bad.append(f"send('go') gave {r!r}")
+    if order != [("nested", None, "a"), "after_go", "enter_c"]:
+        bad.append(f"order {order!r}")
+    if sm.current_state.id != "c":
+        bad.append("state " + sm.current_state.id)
+    if sc["attach"] and "nxt" not in seen:
+        bad.append(f"the new listener saw {seen!r}")
+    return {"probe": sc["probe"], "bad": bad}
+
+
+PROBES = {"add_listener_in_callback": probe_add_listener_in_callback, "same_class_listener": probe_same_class_listener, "event_name_callback": probe_event_name_callback,
           "threads_overlap": probe_threads_overlap}
 
 
@@ -402,6 +474,8 @@ def install(prop, g):
             parts.append(("probes (fixed machines, direct assertions): " + ", ".join(sorted({p_["probe"] for p_ in spec["probes"]})),
                           len(spec["probes"])))
         base = [enggen.gen_scenario(rng, spec["knobs"]) for _ in range(n)]
+        if spec.get("post"):
+            base = [spec["post"](b_, rng) for b_ in base]
         if spec.get("late"):
             # some listeners are attached later with add_listener, at random points of the history
             from . import c12
